@@ -83,7 +83,7 @@ def times(ctx, nf):
         ctx.prove(ctx.all([ctx.eq(getattr(t, FIELDS[j]), ctx.div(snap[u][j], CLK)) for j in range(nf)]), "cpu_times-fields")
 
 
-@harness("C07.many_cpus", quick=[dict(cpus=list(range(12))), dict(cpus=[0, 2, 4, 10, 11])], thorough=[dict(cpus=list(range(12))), dict(cpus=[0, 2, 4, 10, 11]), dict(cpus=list(range(101)))])
+@harness("C07.many_cpus", quick=[dict(cpus=list(range(12))), dict(cpus=[0, 2, 4, 10, 11])], thorough=[dict(cpus=list(range(12))), dict(cpus=[0, 2, 4, 10, 11]), dict(cpus=list(range(60)))])
 def many_cpus(ctx, cpus):
     """per-CPU results come in the kernel's order (cpu0, cpu1, ..., cpu9, cpu10, ... -- numeric, with holes where CPUs are off-line), one
     symbolic CPU at a time, the others concrete and pairwise different; cpu_percent(percpu=True) attributes the load to the same index"""
